@@ -12,6 +12,7 @@ import KafkaVerif.Lemmas.BatchBytes
 import KafkaVerif.Gen.MuxFacts
 import KafkaVerif.Model.WireProg
 import KafkaVerif.Model.ConnDeadline
+import KafkaVerif.Model.VarIntRead
 
 namespace KV.C06
 open KV KV.ConnMux
@@ -1365,6 +1366,9 @@ parameters by position and data flow), so behaviour-preserving edits leave it tr
 * `promisePairedWithRequest`, `runAnswersItsOwnRequest` — TransportConn `Delivery`: the response of an exchange
   goes to the promise created with that request.
 * `loneOnlyWhenAlone` — `Event.lone` requires `aloneWaiting`.
+* `primitivesChargeWhatTheyConsume` — the primitives of read.go / discard.go themselves: every `r.Discard` /
+  `io.ReadFull` / `r.Read` has its byte count subtracted from the budget (`conserves_*` of Base/Reader,
+  `varint_read_conserves` below: the hypothesis `Prim.conserves` of `wire_discipline_consumes_frame`).
 * `readFailureCloseDropsBuffered` — `finish io` sets `closed`, and `closed_is_final` says no call takes a frame after
   that: in the code the close of an unreadable response must also drop what is buffered of it, under the read lock
   (finding C06-D30: closing the net.Conn alone left the leftover in the bufio.Reader for the waiting callers).
@@ -1388,7 +1392,35 @@ theorem structural_facts_hold :
     Gen.MuxFacts.wireSitesThreaded = true ∧ Gen.MuxFacts.remainOnlyFromPrims = true ∧
     Gen.MuxFacts.batchCallbacksThreaded = true ∧ Gen.MuxFacts.hooksInsideCriticalSections = true ∧
     Gen.MuxFacts.promisePairedWithRequest = true ∧ Gen.MuxFacts.runAnswersItsOwnRequest = true ∧
-    Gen.MuxFacts.loneOnlyWhenAlone = true ∧ Gen.MuxFacts.readFailureCloseDropsBuffered = true := by decide
+    Gen.MuxFacts.loneOnlyWhenAlone = true ∧ Gen.MuxFacts.readFailureCloseDropsBuffered = true ∧
+    Gen.MuxFacts.primitivesChargeWhatTheyConsume = true := by decide
+
+/-- **readVarInt conserves bytes however the response is cut into chunks** (Model/VarIntRead.lean).  `Prim.varint` of
+Model/WireProg.lean took this for granted; it is now proved for the algorithm of read.go itself — the window of buffered
+bytes at each turn of its loop is an arbitrary list — including the branch that makes room in the buffer in the middle
+of a number (seed C06-m7 dropped `sz -= n` there: the budget stayed too high by the bytes already consumed, and
+`Batch.close` discarded that many bytes of the NEXT response). -/
+theorem varint_read_conserves (fuel : Nat) (ws : List Nat) (s : Reader.RS) :
+    Reader.Adv s (VarIntRead.readVarInt fuel ws s).2 := VarIntRead.readVarInt_conserves fuel ws s
+
+/-- the value and the bytes consumed do not depend on where the chunk boundary falls: 300 zig-zag-encoded on two bytes
+(value 150), all at once, split inside the number, and with a third byte waiting -/
+def okVal (r : Except Reader.Err Int × Reader.RS) : Option Int × Reader.RS :=
+  (match r.1 with | .ok v => some v | .error _ => none, r.2)
+
+def isShortRead (r : Except Reader.Err Int × Reader.RS) : Bool :=
+  match r.1 with | .error .shortRead => true | _ => false
+
+theorem varint_chunking_examples :
+    okVal (VarIntRead.readVarInt 8 [3] ⟨[0xAC, 0x02, 9], 3⟩) = (some 150, ⟨[9], 1⟩) ∧
+    okVal (VarIntRead.readVarInt 8 [1, 2] ⟨[0xAC, 0x02, 9], 3⟩) = (some 150, ⟨[9], 1⟩) ∧
+    okVal (VarIntRead.readVarInt 8 [1, 1, 1] ⟨[0xAC, 0x02, 9], 3⟩) = (some 150, ⟨[9], 1⟩) ∧
+    okVal (VarIntRead.readVarInt 8 [0, 2] ⟨[0xAC, 0x02, 9], 3⟩) = (some 150, ⟨[9], 1⟩) ∧
+    -- the budget ends inside the number: errShortRead with the budget used up
+    isShortRead (VarIntRead.readVarInt 8 [1, 2] ⟨[0xAC, 0x02, 9], 1⟩) = true ∧
+    (VarIntRead.readVarInt 8 [1, 2] ⟨[0xAC, 0x02, 9], 1⟩).2 = ⟨[0x02, 9], 0⟩ ∧
+    -- the stream ends inside the number
+    (VarIntRead.readVarInt 8 [1] ⟨[0xAC], 5⟩).2 = ⟨[], 4⟩ := by decide
 
 /-- **Every reader in the size-threading discipline consumes its frame whole.**  Model/BatchBytes.lean spells out the
 magic-0/1 path; the rest of message_reader.go (record batches, varints, record headers, both decompression sites,
